@@ -98,6 +98,12 @@ func applySchema(data json.RawMessage, resolved *jsonschema.Resolved, forOutput 
 			if err := internaljson.Unmarshal(data, &v); err != nil {
 				return nil, fmt.Errorf("unmarshaling arguments: %w", err)
 			}
+			if v == nil {
+				// "arguments": null leaves a nil map behind, into which defaults
+				// cannot be written (assignment to entry in nil map). It means no
+				// arguments, like an absent member.
+				v = make(map[string]any)
+			}
 		}
 		unmarshaled = v
 	} else {
